@@ -2,7 +2,7 @@
    runner and by the generated in-Coq case files. *)
 From Coq Require Import ZArith List Bool.
 From Gabi Require Import Val ModArith Bytes Der Sha256 HashTool GoSem ParamsDef ZkProof Keys RangeProof NonRev Core CL Prover RangeSound Revocation NonRevProver Keyshare MathUtil Codec FilePerm KeyDoc EventList.
-From Gabi Require Sqrt.
+From Gabi Require Sqrt SaccCache.
 From Gabi Require Cache Concurrency KeyGen KeyProofWire.
 Import ListNotations.
 Open Scope Z_scope.
@@ -313,6 +313,21 @@ Definition d_update_prepend (v : val) : val := ret (
   | _ => None
   end).
 
+Definition as_uv_call (v : val) : option SaccCache.uv_call :=
+  match v with
+  | VL [c; VN] => do c <- as_Z c; Some (SaccCache.mkCall c None)
+  | VL [c; a] => do c <- as_Z c; do a <- as_racc a; Some (SaccCache.mkCall c (Some a))
+  | _ => None
+  end.
+
+Definition d_uv_run (v : val) : val := ret (
+  match v with
+  | VL [sc; VL calls] =>
+    do sc <- as_Z sc; do calls <- map_opt as_uv_call calls;
+    Some (VL (map (of_outcome of_racc) (fst (SaccCache.uv_run sc None calls))))
+  | _ => None
+  end).
+
 Definition d_prime_sqrt (v : val) : val := ret (
   match v with
   | VL [a; p] => do a <- as_Z a; do p <- as_Z p; Some (of_outcome of_oZ (Sqrt.prime_sqrt a p))
@@ -528,6 +543,7 @@ Definition dispatch (fn : Z) (v : val) : val :=
   | 1003 => d_update_verify v
   | 1004 => d_update_prepend v
   | 1005 => d_hash_equal v
+  | 1006 => d_uv_run v
   | 1101 => d_nr_commit v
   | 1102 => d_nr_refresh v
   | 1103 => d_nr_build v
